@@ -98,5 +98,5 @@ def run(tier, seed):
     need = {'InvalidWeight', 'InsufficientNonZero'}
     if built == 0 or sampled < 13 or not need <= set(rejected):
         V.log('coverage floor not met', built, sampled, rejected)
-        return 2
+        return 1 if rc == 1 else 2  # a violation outranks a missed coverage floor
     return rc
